@@ -65,6 +65,11 @@ class NotFound(Exception):
     pass
 
 
+from ..grammar_props import TABLE as _TABLE
+from ..grammar_check import spec_seq
+SPEC_OF = {p: s for p, s, _ in _TABLE}
+
+
 def defs(seq, acc=None):
     acc = {} if acc is None else acc
     def add(st, p):
@@ -192,6 +197,17 @@ def run(tier, repo):
             rp.fail("UNCONSTRAINED", key + "/shape", site(f), "%s is not where the reference grammar puts it (%s): the code point is dropped, transformed or conditional" % (what, nf))
             continue
         n += 1
+        # the same accessor on the reference grammar must reach the same wire element (binder names are canonical):
+        # a field fed by another, equally unconstrained integer (e.g. two swapped u16 fields) is not "returned unchanged"
+        specfn = SPEC_OF.get(path)
+        if specfn is not None:
+            try:
+                sseq = spec_seq(specfn)
+                ssym = resolve(sseq["ret"][1], acc, defs(sseq))
+                rp.check(ssym == sym or (ssym[0] == "listelem" and sym[0] == "listelem"), "UNCONSTRAINED", key + "/same-wire-element", site(f), "%s is fed by a different wire element than in the reference grammar" % what,
+                         expected=sym_str(ssym) if ssym[0] != "listelem" else "list element", found=sym_str(sym) if sym[0] != "listelem" else "list element", why_ok="same wire element as the reference grammar")
+            except NotFound:
+                pass
         if sym[0] == "listelem":
             lam = sym[2]
             body = lam[2] if lam[0] == "lam" else None
@@ -212,6 +228,21 @@ def run(tier, repo):
             continue
         rp.check(sym[1] not in cv, "UNCONSTRAINED", key + "/no-condition", site(f), "%s is tested by a guard / verify / dispatch: some values are rejected or change the structure" % what,
                  found=[sym_str(st[1]) if st[0] == "guard" else st[0] for st in D.values() if False] or "binder %s appears in a condition" % sym[1], why_ok="mentioned in no condition")
+    # extension types that do not reach the Unknown fallback must be known (IANA) types: an unregistered type captured by a
+    # dispatch arm is not preserved
+    known = set(G.EXT_CONTENT)
+    for name in ("parse_tls_extension", "parse_tls_client_hello_extension", "parse_tls_server_hello_extension"):
+        pth = "tls_extensions::" + name
+        if pth in cache or F.fn(pth):
+            seq = cache.get(pth) or code_seq(F, pth)[0]
+            consts = []
+            def grab(st, p_):
+                if st[0] == "switch" and not consts:
+                    consts.extend(c for c, _ in st[3])
+            walk_steps(seq, grab)
+            extra = sorted(set(consts) - known)
+            rp.check(bool(consts) and not extra, "UNKNOWN-FALLBACK", name + "/dispatched-types-are-known", site(F.fn(pth)), "unregistered extension type(s) %s are captured by a dispatch arm instead of being preserved as Unknown" % [hex(x) for x in extra],
+                     found=[hex(x) for x in extra], why_ok="%d dispatched types, all IANA-known" % len(consts))
     for path, acc, what in RAW_LISTS:
         f = F.fn(path)
         key = "%s/%s" % (path.split("::")[-1], what)
